@@ -115,6 +115,12 @@ def run_variant(args) -> dict:
                 code = 2
                 fired.append({"property": pid, "exit": 2, "detail": str(aerr)})
                 continue
+            except Exception as exc:     # a crash of the checker is an analysis error, as in the CLI
+                import traceback as _tb
+                code = 2
+                fired.append({"property": pid, "exit": 2, "detail": "checker crashed: %s: %s @ %s" % (
+                    type(exc).__name__, exc, _tb.extract_tb(exc.__traceback__)[-1][:3])})
+                continue
             if code == 1:
                 rules = sorted({o.rule + " @ " + o.qualname for o in ctx.obligations if not o.ok and not o.known})
                 fired.append({"property": pid, "exit": 1, "rules": rules})
